@@ -91,5 +91,13 @@ theorem payout_phase_never_fails (w : World) (hs : QSorted w) (hn : NonnegQ w) (
     before the six phases, the phases in this order -/
 theorem end_blocker_body_as_modelled : Generated.endBlockStatements = ["defer telemetry.ModuleMeasureSince(types.ModuleName, ctx.BlockTime(), telemetry.MetricKeyEndBlocker)", "k.CompleteRedelegations(ctx)", "if err := k.CompleteUnbondings(ctx); err != nil {", "assets := k.GetAllAssets(ctx)", "if err := k.InitializeAllianceAssets(ctx, assets); err != nil {", "if _, err := k.DeductAssetsHook(ctx, assets); err != nil {", "if err := k.RewardWeightChangeHook(ctx, assets); err != nil {", "if err := k.RebalanceHook(ctx, assets); err != nil {", "return nil"] := rfl
 
+
+/-- fact (regenerated from app/app.go on every run): the alliance module account may mint and burn — the end blocker burns
+    whatever staking-denom coins the account holds (`CompleteUnbondings`) and the rebalancer mints and burns the virtual stake;
+    without the burner permission the bank module panics and the chain halts (seeded change C17-j) — and the rewards pool has no
+    permission at all -/
+theorem module_account_permissions_as_modelled :
+    Generated.allianceModulePerms = ["authtypes.Burner", "authtypes.Minter"] ∧ Generated.rewardsPoolPerms = [] := by decide
+
 end C17
 end Alliance
